@@ -251,6 +251,11 @@ func (e *CEnv) ident(name string) Value {
 		return TEps
 	case "nil":
 		return nilMarker{}
+	case "alloc":
+		if e.st.Alloc != nil {
+			return e.st.Alloc
+		}
+		return IntLit(0)
 	}
 	// local variable at a loop head
 	if e.fr != nil && e.fn != nil {
